@@ -219,7 +219,11 @@ func (s *snapshotSink) done(err error) (snapshotMeta, error) {
 	verifPointSnaps(s.snaps, "snap.renamed")
 	temp = nil
 	s.snaps.mu.Lock()
-	s.snaps.index, s.snaps.term = s.meta.index, s.meta.term
+	if s.meta.index > s.snaps.index {
+		// (a snapshot that was started before a newer one was installed
+		// finishes after it: it does not become the current one)
+		s.snaps.index, s.snaps.term = s.meta.index, s.meta.term
+	}
 	s.snaps.mu.Unlock()
 	_ = s.snaps.applyRetain() // todo: trace error
 	return s.meta, nil
